@@ -222,9 +222,9 @@ class Check:
             self.harness_error("wall-clock budget of %d s spent: %d solver queries were not attempted (answered unknown)" % (Z.BUDGET["seconds"], Z.BUDGET["skipped"]))
         from symnum import executor as _X
         if _X.GENERIC_CUTS[0]:
-            self.assume("inputs in general position: %d exact equality tests (==, !=, .any(), array_equal) between structurally different symbolic "
-                        "values that the assumptions do not decide were taken as 'not equal' (recorded cuts; equal arguments are covered where a case "
-                        "uses the same symbol for both)" % _X.GENERIC_CUTS[0])
+            self.assume("inputs in general position: %d undecided exact equality tests (==, !=, .any(), array_equal) between structurally different "
+                        "symbolic values were taken as 'not equal', and undecided magnitude guards |x| > c (c <= 1e-3) as 'x is not tiny' (recorded cuts; "
+                        "equal arguments are covered where a case uses the same symbol for both, vanishing ones where it uses the constant 0)" % _X.GENERIC_CUTS[0])
         from symnum import npproxy as _npp
         for which, c in sorted(_npp.CAP_CUTS):
             self.assume("numpy.%s(x, %g) with a symbolic x is taken as x: the claims are restricted to x %s %g (for the Bose argument "
